@@ -11,13 +11,13 @@ import (
 
 func init() {
 	register("C14", "Decides structural necessary conditions of 'storing issuance chains outside the backend is invisible to readers': "+
-		"(R1) the backend's GetLeavesByRange / GetEntryAndProof are called only in their rpc* wrappers and the handlers use only the wrappers; "+
-		"(R2) a wrapper returns success only if FixLogLeaf returned nil for every leaf it serves, its failure is a 500; "+
+		"(R1) every function of the front end that issues the backend's GetLeavesByRange / GetEntryAndProof (the rpc* wrapper, or the handler itself) is a declared function with one call site and is bound by R2; each handler reaches its RPC exactly once, itself or through the one function it calls that issues it; "+
+		"(R2) a function that issues the RPC returns success only if FixLogLeaf returned nil for every leaf of the reply (the loop that fixes the leaves covers Leaves[0..len) and stands between the reply and every success return; a single leaf is skipped only when absent), its failure is a 500; "+
 		"(R3) FixLogLeaf: every error of the chain lookup, of its ASN.1 decoding (incl. trailing bytes) and of re-encoding is returned; leaf.ExtraData is stored only on all-success paths with the re-encoded full structure; a hash-form layout with a non-empty hash always goes through the lookup (the lookup is skipped only for an empty hash); full-chain layouts return nil without touching the leaf; no layout matched ⇒ error; "+
 		"(R4) writer and reader use the identical Go types: the writer stores asn1.Marshal(raw[1:]) of []ct.ASN1Cert under its hash and embeds (raw[0], hash); the reader decodes into []ct.ASN1Cert and re-inflates PrecertChainEntry{PreCertificate ← stored, CertificateChain ← chain} / CertificateChain{Entries ← chain} — the types the in-backend mode writes; "+
 		"(R5) add: key = SHA-256(chain), a storage error is returned, the cache is filled only after the storage write succeeded, a cache hit short-cuts only when err == nil and the entry is non-nil; getByHash: cache error or hit is returned as is, storage error is returned, the cache is filled only after a successful storage read; "+
-		"(R6) a chain read from storage is compared with its key (SHA-256) before use; (R7) the four extra-data layouts have the prefix widths FixLogLeaf's discrimination assumes; "+
-		"(R9) the cache only ever receives rows of the storage (what lets add skip the storage write on a cache hit): every call of the cache's Set anywhere in the module, followed through goroutines, helpers and wrappers to where its (key, chain) are produced, passes the chain read from storage under that key or the pair just written to storage, only after that storage call succeeded; Set is never taken as a function value; the LRU behind the cache is inserted into only by Set with Set's own pair. "+
+		"(R6) a chain read from storage is compared with its key (SHA-256) before either use: before it is served and before it is handed to the cache (cache hits are served unchecked); (R7) the four extra-data layouts have the prefix widths FixLogLeaf's discrimination assumes; "+
+		"(R9) the cache only ever receives rows of the storage (what lets add skip the storage write on a cache hit): every call of the cache's Set anywhere in the module, followed through goroutines, helpers and wrappers to where its (key, chain) are produced, passes the chain read from storage under that key (and only once its SHA-256 has been compared with that key) or the pair just written to storage, only after that storage call succeeded; Set is never taken as a function value; the LRU behind the cache is inserted into only by Set with Set's own pair. "+
 		"NOT covered: mutual unambiguity of the four layouts for all byte strings, cache expiry/eviction timing, SQL storage behaviour, the detached cache.Set goroutine's schedule.",
 		runC14)
 }
@@ -25,88 +25,105 @@ func init() {
 func runC14(r *Run) {
 	r.Assume("IssuanceChainStorage.FindByKey returns an error for unknown keys (sql.ErrNoRows in both SQL backends)")
 	r.Rule("C14.R1")
-	c14Who(r)
+	issuers := c14Who(r)
 
+	// R2 is stated on whichever function of the front end issues the RPC (the rpc* wrapper, or the
+	// handler itself when it makes the call where the wrapper used to be called): between the reply
+	// and any success return of that function every leaf of the reply has passed FixLogLeaf.
 	r.Rule("C14.R2")
-	for _, w := range []string{"trillian/ctfe.rpcGetLeavesByRange", "trillian/ctfe.rpcGetEntryAndProof"} {
-		if fn := r.Fn(w); fn != nil {
-			r.ErrorsGate(fn, short(w)+":fix-gates-success", "iface(trillian/ctfe.leafChainBuilder).FixLogLeaf", 1)
-			r.FailEdge(fn, short(w), EdgeSpec{Name: "fix-failed", Atom: nilAtom("iface(trillian/ctfe.leafChainBuilder).FixLogLeaf(*)"), Bad: "non", Want: wantStatus("500")})
-			for _, c := range CallsTo(fn, "iface(trillian/ctfe.leafChainBuilder).FixLogLeaf") {
-				r.ExpectArg(c, short(w)+":fix.service", 0, "p1.issuanceChainService")
-				r.ExpectArg(c, short(w)+":fix.leaf", 2, "iface(trillian.TrillianLogClient).*(*)#0.Leaf || iface(trillian.TrillianLogClient).*(*)#0.Leaves[it@*]")
+	for _, rpc := range []string{"GetLeavesByRange", "GetEntryAndProof"} {
+		reply := "iface(trillian.TrillianLogClient)." + rpc + "(*)#0"
+		for _, fn := range c14SortedFuncs(issuers[rpc]) {
+			w := short(FuncName(fn))
+			li := c14LogInfoParam(fn)
+			if li == "" {
+				r.Fail(w+":fix.service", r.FnPos(fn), "undecided: "+FuncName(fn)+" issues "+rpc+" but has no single *logInfo parameter whose issuance chain service could be asked")
+				continue
 			}
-		}
-	}
-	// must-pass-through: a leaf that is present is never served without having passed
-	// FixLogLeaf — the only condition under which the call may be skipped is "no leaf"
-	if fn := r.Fn("trillian/ctfe.rpcGetEntryAndProof"); fn != nil {
-		fix := CallsTo(fn, "iface(trillian/ctfe.leafChainBuilder).FixLogLeaf")
-		if len(fix) == 1 {
-			s := Sigma{}
-			for k := range r.D.AtomsOf(fn) {
-				if glob("nil?iface(trillian.TrillianLogClient).GetEntryAndProof(*)#0.Leaf", k) {
-					s[k] = "non"
-				}
-				if glob("nil?iface(trillian.TrillianLogClient).GetEntryAndProof(*)#1", k) {
-					s[k] = "nil"
-				}
+			r.ErrorsGate(fn, w+":fix-gates-success", "iface(trillian/ctfe.leafChainBuilder).FixLogLeaf", 1)
+			r.FailEdge(fn, w, EdgeSpec{Name: "fix-failed", Atom: nilAtom("iface(trillian/ctfe.leafChainBuilder).FixLogLeaf(*)"), Bad: "non", Want: wantStatus("500")})
+			fix := CallsTo(fn, "iface(trillian/ctfe.leafChainBuilder).FixLogLeaf")
+			for _, c := range fix {
+				r.ExpectArg(c, w+":fix.service", 0, li+".issuanceChainService")
+				r.ExpectArg(c, w+":fix.leaf", 2, reply+".Leaf || "+reply+".Leaves[it@*]")
 			}
-			reach := r.D.Walk(fn, s, nil, map[*ssa.BasicBlock]bool{fix[0].Block(): true})
-			r.Valuations++
-			ok := len(s) >= 1
-			for _, ret := range successReturns(fn) {
-				if reach.Has(ret) {
-					ok = false
-				}
+			if len(fix) != 1 {
+				r.Fail(w+":fix-call", r.FnPos(fn), fmt.Sprintf("undecided: %s issues %s and contains %d FixLogLeaf calls (expected the one that every leaf of the reply passes)", FuncName(fn), rpc, len(fix)))
+				continue
 			}
-			r.Check("rpcGetEntryAndProof:present-leaf-always-fixed", ok, r.Where(fix[0]), "with a leaf present, the success return cannot be reached around FixLogLeaf (the call may be skipped only when the reply has no leaf)")
-		}
-	}
-	if fn := r.Fn("trillian/ctfe.rpcGetLeavesByRange"); fn != nil {
-		fix := CallsTo(fn, "iface(trillian/ctfe.leafChainBuilder).FixLogLeaf")
-		if len(fix) == 1 {
-			// the call sits in a loop (whatever its syntactic form: range, index loop, …); once an iteration
-			// has been entered (the header's edge into the loop was taken), every path to the next
-			// iteration (back to the header) or to a return passes the call
-			fb := fix[0].Block()
-			h := loopHeaderOf(fb)
-			ok := h != nil
-			if ok && h != fb {
-				loop := loopBlocksOf(h)
-				stop := map[*ssa.BasicBlock]bool{fb: true}
-				entered := 0
-				for _, s := range h.Succs {
-					if !loop[s] || s == h {
-						continue
+			switch rpc {
+			case "GetEntryAndProof":
+				// must-pass-through: a leaf that is present is never served without having passed
+				// FixLogLeaf — the only condition under which the call may be skipped is "no leaf"
+				s := Sigma{}
+				for k := range r.D.AtomsOf(fn) {
+					if glob("nil?"+reply+".Leaf", k) {
+						s[k] = "non"
 					}
-					entered++
-					if s == fb {
-						continue
+					if glob("nil?iface(trillian.TrillianLogClient).GetEntryAndProof(*)#1", k) {
+						s[k] = "nil"
 					}
-					reach := r.D.Walk(fn, Sigma{}, s, stop)
-					r.Valuations++
-					for b := range reach.Blocks {
-						if b == h || len(b.Succs) == 0 {
-							ok = false
+				}
+				reach := r.D.Walk(fn, s, nil, map[*ssa.BasicBlock]bool{fix[0].Block(): true})
+				r.Valuations++
+				ok := len(s) >= 1
+				for _, ret := range successReturns(fn) {
+					if reach.Has(ret) {
+						ok = false
+					}
+				}
+				r.Check(w+":present-leaf-always-fixed", ok, r.Where(fix[0]), "with a leaf present, the success return cannot be reached around FixLogLeaf (the call may be skipped only when the reply has no leaf)")
+			case "GetLeavesByRange":
+				// the call sits in a loop (whatever its syntactic form: range, index loop, …); once an iteration
+				// has been entered (the header's edge into the loop was taken), every path to the next
+				// iteration (back to the header) or to a return passes the call
+				fb := fix[0].Block()
+				h := loopHeaderOf(fb)
+				ok := h != nil
+				if ok && h != fb {
+					loop := loopBlocksOf(h)
+					stop := map[*ssa.BasicBlock]bool{fb: true}
+					entered := 0
+					for _, s := range h.Succs {
+						if !loop[s] || s == h {
+							continue
+						}
+						entered++
+						if s == fb {
+							continue
+						}
+						reach := r.D.Walk(fn, Sigma{}, s, stop)
+						r.Valuations++
+						for b := range reach.Blocks {
+							if b == h || len(b.Succs) == 0 {
+								ok = false
+							}
 						}
 					}
+					if entered == 0 {
+						ok = false
+					}
 				}
-				if entered == 0 {
-					ok = false
+				r.Check(w+":every-leaf-fixed", ok, r.Where(fix[0]), "inside the loop over the reply's leaves no path reaches the next leaf or a return around FixLogLeaf")
+				// the loop covers every leaf of the reply: the leaf handed to FixLogLeaf is Leaves[i] for a
+				// counter i that starts at 0, advances by 1 and enters the loop exactly while i < len(Leaves)
+				// (the shape a range loop has by construction and an index loop must have explicitly)
+				okAll, why := c14CoversAll(r, fix[0], reply+".Leaves")
+				r.Check(w+":all-leaves", okAll, r.Where(fix[0]), "FixLogLeaf is applied to Leaves[i] in a loop over i = 0, 1, … bounded by len(rsp.Leaves)"+why)
+				// and no success return is reachable from the reply without the loop having been entered or
+				// found empty: the loop header stands between the reply and every success return
+				if h != nil {
+					reach := r.D.Walk(fn, Sigma{}, issuers[rpc][fn][0].Block(), map[*ssa.BasicBlock]bool{h: true})
+					r.Valuations++
+					okL := true
+					for _, ret := range successReturns(fn) {
+						if reach.Has(ret) && ret.Block() != h {
+							okL = false
+						}
+					}
+					r.Check(w+":loop-before-success", okL, r.Where(fix[0]), "after the reply no success return is reachable around the loop that fixes the leaves")
 				}
 			}
-			r.Check("rpcGetLeavesByRange:every-leaf-fixed", ok, r.Where(fix[0]), "inside the loop over the reply's leaves no path reaches the next leaf or a return around FixLogLeaf")
-		}
-	}
-	// the loop in rpcGetLeavesByRange covers every leaf of the reply: the leaf handed to FixLogLeaf is
-	// Leaves[i] for a counter i that starts at 0, advances by 1 and enters the loop exactly while i < len(Leaves)
-	// (the shape a range loop has by construction and an index loop must have explicitly)
-	if fn := r.Fn("trillian/ctfe.rpcGetLeavesByRange"); fn != nil {
-		fix := CallsTo(fn, "iface(trillian/ctfe.leafChainBuilder).FixLogLeaf")
-		if len(fix) == 1 {
-			ok, why := c14CoversAll(r, fix[0], "iface(trillian.TrillianLogClient).GetLeavesByRange(*)#0.Leaves")
-			r.Check("rpcGetLeavesByRange:all-leaves", ok, r.Where(fix[0]), "FixLogLeaf is applied to Leaves[i] in a loop over i = 0, 1, … bounded by len(rsp.Leaves)"+why)
 		}
 	}
 
@@ -167,20 +184,24 @@ func runC14(r *Run) {
 				}
 			}
 		}
-		// full-chain layouts: return nil, no store
-		for _, full := range []string{"new:ct.PrecertChainEntry#1", "new:ct.CertificateChain#1"} {
-			for _, c := range CallsTo(fix, "tls.Unmarshal") {
-				if r.D.D(CallArgs(c)[1]) != full {
+		// full-chain layouts: return nil, no store.  A probe is the question "is the extra data exactly the
+		// TLS encoding of a T" — tls.Unmarshal in place, or a predicate helper verified to answer exactly
+		// that (c14Probes); the layout is named by the type decoded into, not by the local that receives it
+		probes := c14Probes(r, fix, "FixLogLeaf")
+		for _, full := range []string{"ct.PrecertChainEntry", "ct.CertificateChain"} {
+			for _, p := range probes {
+				if p.typ != full {
 					continue
 				}
-				errv := CallResult(c, 1)
-				rest := CallResult(c, 0)
-				if errv == nil || rest == nil {
-					r.Fail("FixLogLeaf:full-layout:"+full, r.Where(c), "result ignored")
+				k := "FixLogLeaf:full-layout-unchanged:" + p.dst
+				if p.via != "" {
+					k = "FixLogLeaf:full-layout-unchanged:" + full
+				}
+				if p.match == nil {
+					r.Fail("FixLogLeaf:full-layout:"+p.dst, r.Where(p.call), "result ignored")
 					continue
 				}
-				s := Sigma{"nil?" + r.D.D(errv): "nil", "ord(0, len(" + r.D.D(rest) + "))": "="}
-				reach := r.D.Walk(fix, s, c.Block(), nil)
+				reach := r.D.Walk(fix, p.match, p.call.Block(), nil)
 				r.Valuations++
 				rets := reachableReturns(fix, reach)
 				ok := len(rets) == 1 && errKind(rets[0].Results[0]) == "nil"
@@ -189,7 +210,7 @@ func runC14(r *Run) {
 						ok = false
 					}
 				}
-				r.Check("FixLogLeaf:full-layout-unchanged:"+full, ok, r.Where(c), "an entry stored with its full chain is served unchanged (return nil, no store)")
+				r.Check(k, ok, r.Where(p.call), "an entry stored with its full chain is served unchanged (return nil, no store)")
 			}
 		}
 		// bytes after the stored chain ⇒ error, and the leaf is not rewritten
@@ -221,9 +242,13 @@ func runC14(r *Run) {
 		r.Floor("FixLogLeaf asn1.Unmarshal of stored chains", nTrail, 2)
 		// under all four decodes failing, only the error return is reachable
 		s := Sigma{}
-		for _, c := range CallsTo(fix, "tls.Unmarshal") {
-			if ev := CallResult(c, 1); ev != nil {
-				s["nil?"+r.D.D(ev)] = "non"
+		probed := map[string]int{}
+		for _, p := range probes {
+			for k, v := range p.failed {
+				s[k] = v
+			}
+			if p.failed != nil {
+				probed[p.typ]++
 			}
 		}
 		reach := r.D.Walk(fix, s, nil, nil)
@@ -234,14 +259,18 @@ func runC14(r *Run) {
 				okU = false
 			}
 		}
-		r.Check("FixLogLeaf:no-layout-matches", okU && len(s) == 4, r.FnPos(fix), "when no layout decodes, FixLogLeaf returns an error")
+		r.Check("FixLogLeaf:no-layout-matches", okU && len(probed) == 4 && len(s) == len(probes), r.FnPos(fix), "when no layout decodes, FixLogLeaf returns an error")
 
 		r.Rule("C14.R4")
 		// reader types
-		want := map[string]string{"new:ct.PrecertChainEntryHash#0": "", "new:ct.CertificateChainHash#0": "", "new:ct.PrecertChainEntry#1": "", "new:ct.CertificateChain#1": ""}
-		for _, c := range CallsTo(fix, "tls.Unmarshal") {
-			r.ExpectArg(c, "FixLogLeaf:decode.src:"+r.D.D(CallArgs(c)[1]), 0, "p2.ExtraData")
-			delete(want, r.D.D(CallArgs(c)[1]))
+		want := map[string]string{"ct.PrecertChainEntryHash": "", "ct.CertificateChainHash": "", "ct.PrecertChainEntry": "", "ct.CertificateChain": ""}
+		for _, p := range probes {
+			k := "FixLogLeaf:decode.src:" + p.dst
+			if p.via != "" {
+				k = "FixLogLeaf:decode.src:" + p.typ
+			}
+			r.Check(k, p.src == "p2.ExtraData", r.Where(p.call), fmt.Sprintf("the bytes probed as %s = %s (expected p2.ExtraData)", p.typ, p.src))
+			delete(want, p.typ)
 		}
 		r.Check("FixLogLeaf:four-layouts", len(want) == 0, r.FnPos(fix), fmt.Sprintf("layouts not probed: %v", keysOf(want)))
 		for _, c := range CallsTo(fix, "asn1.Unmarshal") {
@@ -303,7 +332,7 @@ func runC14(r *Run) {
 			r.MustGuard(fn, "getByHash:cache-filled-only-after-read", "nil?iface(trillian/ctfe/storage.IssuanceChainStorage).FindByKey(*)#1", "non", gos, "cache fill")
 			g := gos[0].(*ssa.Go)
 			k, v, why := c14CacheFill(r, g)
-			r.Check("getByHash:cache-fill.args", k != nil && r.D.D(k) == "p2" && glob("iface(trillian/ctfe/storage.IssuanceChainStorage).FindByKey(*)#0", r.D.D(v)), r.Where(g), "cache filled with (hash, chain read) "+why)
+			r.Check("getByHash:cache-fill.args", k != nil && c14D(r, fn, k) == "p2" && glob("iface(trillian/ctfe/storage.IssuanceChainStorage).FindByKey(*)#0", c14D(r, fn, v)), r.Where(g), "cache filled with (hash, chain read) "+why)
 		} else {
 			r.Fail("getByHash:cache-fill", r.FnPos(fn), fmt.Sprintf("%d detached cache fills", len(gos)))
 		}
@@ -311,7 +340,7 @@ func runC14(r *Run) {
 			if errKind(ret.Results[1]) == "nil" {
 				// a success result is the chain read from storage — or the cache's entry, where the return can
 				// only execute on a hit (entry non-nil) that the cache reported without error
-				got := r.D.D(ret.Results[0])
+				got := c14D(r, fn, ret.Results[0])
 				ok := glob("iface(trillian/ctfe/storage.IssuanceChainStorage).FindByKey(*)#0", got)
 				if !ok && glob("iface(trillian/ctfe/cache.IssuanceChainCache).Get(*)#0", got) {
 					get := got[:len(got)-2]
@@ -323,11 +352,10 @@ func runC14(r *Run) {
 
 		r.Rule("C14.R6")
 		// integrity: after a storage read, success is unreachable unless hash(chain) == key
-		eq := "bytes.Equal(trillian/ctfe.issuanceChainHash(iface(trillian/ctfe/storage.IssuanceChainStorage).FindByKey(*)#0), p2) || bytes.Equal(p2, trillian/ctfe.issuanceChainHash(iface(trillian/ctfe/storage.IssuanceChainStorage).FindByKey(*)#0))"
 		found := ""
-		for k := range r.D.AtomsOf(fn) {
-			if anyGlob(eq, k) {
-				found = k
+		if find != nil {
+			if res := CallResult(find, 0); res != nil {
+				found = c14ContentCheck(r, fn, "p2", c14D(r, fn, res))
 			}
 		}
 		if found == "" {
@@ -335,11 +363,15 @@ func runC14(r *Run) {
 		} else if find != nil {
 			var succ []ssa.Instruction
 			for _, ret := range Returns(fn) {
-				if errKind(ret.Results[1]) == "nil" && glob("*FindByKey(*)#0", r.D.D(ret.Results[0])) {
+				if errKind(ret.Results[1]) == "nil" && glob("*FindByKey(*)#0", c14D(r, fn, ret.Results[0])) {
 					succ = append(succ, ret)
 				}
 			}
-			r.MustGuardFrom(fn, find.Block(), "getByHash:integrity", found, "F", append(succ, gos...), "use of the chain read from storage")
+			// the comparison stands between the storage read and BOTH uses of the chain read: serving it
+			// to the caller, and handing it to the cache (a cache hit is served without any check, so a
+			// row cached before the comparison is served on every later read of that hash)
+			r.MustGuardFrom(fn, find.Block(), "getByHash:integrity", found, "F", succ, "serving the chain read from storage")
+			r.MustGuardFrom(fn, find.Block(), "getByHash:integrity:cache-fill", found, "F", gos, "handing the chain read from storage to the cache (cache hits are served unchecked) before its SHA-256 was compared with its key:")
 		}
 	}
 
@@ -374,22 +406,68 @@ func runC14(r *Run) {
 	}
 }
 
-func c14Who(r *Run) {
-	for _, h := range []string{"trillian/ctfe.getEntries", "trillian/ctfe.getEntryAndProof"} {
-		if fn := r.Fn(h); fn != nil {
-			r.Check("who:"+short(h)+":no-direct-rpc", len(CallsTo(fn, "iface(trillian.TrillianLogClient).*")) == 0, r.FnPos(fn), "the handler reaches the backend only through its rpc* wrapper")
-			r.Check("who:"+short(h)+":wrapper", len(CallsTo(fn, "trillian/ctfe.rpc*")) == 1, r.FnPos(fn), "the handler calls its rpc* wrapper")
-		}
+// c14Who (C14.R1): who talks to the backend for entries.  Facts decided, per entry-serving RPC:
+//   - some function of the front end issues it (positive control), each issuer exactly once — those
+//     functions are returned, and C14.R2 binds every one of them, whatever it is called;
+//   - a function literal does not issue it (R2 could not speak about its returns);
+//   - the handler of the entry point reaches the RPC exactly once: it issues it itself, or it calls
+//     exactly one function that does — and it makes no other entry-serving backend call.
+func c14Who(r *Run) map[string]map[*ssa.Function][]ssa.CallInstruction {
+	handlers := map[string]string{"GetLeavesByRange": "trillian/ctfe.getEntries", "GetEntryAndProof": "trillian/ctfe.getEntryAndProof"}
+	issuers := map[string]map[*ssa.Function][]ssa.CallInstruction{}
+	for _, rpc := range []string{"GetEntryAndProof", "GetLeavesByRange"} {
+		issuers[rpc] = c14Issuers(r, rpc)
 	}
-	for rpc, owner := range map[string]string{"GetEntryAndProof": "trillian/ctfe.rpcGetEntryAndProof", "GetLeavesByRange": "trillian/ctfe.rpcGetLeavesByRange"} {
-		got := r.CallersOf("iface(trillian.TrillianLogClient)." + rpc)
-		for _, k := range keysOf(got) {
-			if glob("trillian/ctfe.*", k) || glob("(*trillian/ctfe.*", k) {
-				r.Check("who:"+rpc+"@"+k, k == owner, r.Where(got[k][0]), k+" calls "+rpc)
+	for _, rpc := range []string{"GetEntryAndProof", "GetLeavesByRange"} {
+		h := handlers[rpc]
+		fn := r.Fn(h)
+		if fn == nil {
+			continue
+		}
+		// direct entry-serving calls of the handler, and calls of functions that issue this RPC
+		direct, other, via := 0, 0, 0
+		for q, m := range issuers {
+			for f, cs := range m {
+				if f == fn {
+					if q == rpc {
+						direct += len(cs)
+					} else {
+						other += len(cs)
+					}
+				}
 			}
 		}
-		r.Check("who:"+rpc, len(got[owner]) == 1, "-", owner+" issues the RPC (positive control)")
+		eachInstr(fn, func(in ssa.Instruction) {
+			if ci, ok := in.(ssa.CallInstruction); ok {
+				if callee := ci.Common().StaticCallee(); callee != nil && callee != fn {
+					for q, m := range issuers {
+						if _, isIssuer := m[callee]; isIssuer {
+							if q == rpc {
+								via++
+							} else {
+								other++
+							}
+						}
+					}
+				}
+			}
+		})
+		r.Check("who:"+short(h)+":no-direct-rpc", other == 0 && (direct == 0 || via == 0), r.FnPos(fn), fmt.Sprintf("the handler reaches the backend's entries only by %s, and only one way: %d own calls, %d calls of functions that issue it, %d other entry-serving calls", rpc, direct, via, other))
+		r.Check("who:"+short(h)+":wrapper", direct+via == 1, r.FnPos(fn), fmt.Sprintf("the handler reaches %s exactly once — itself or through the one function it calls that issues the RPC (%d own calls, %d through callees)", rpc, direct, via))
 	}
+	for _, rpc := range []string{"GetEntryAndProof", "GetLeavesByRange"} {
+		n := 0
+		var names []string
+		for _, f := range c14SortedFuncs(issuers[rpc]) {
+			k := FuncName(f)
+			names = append(names, k)
+			cs := issuers[rpc][f]
+			n += len(cs)
+			r.Check("who:"+rpc+"@"+k, f.Parent() == nil && len(cs) == 1, r.Where(cs[0]), fmt.Sprintf("%s calls %s (%d sites): a declared function with one call site, bound by C14.R2", k, rpc, len(cs)))
+		}
+		r.Check("who:"+rpc, n >= 1, "-", fmt.Sprintf("%v issues the RPC (positive control)", names))
+	}
+	return issuers
 }
 
 // c14Storage: a storage write failure is reported.  The SQL back ends return the
@@ -472,7 +550,8 @@ func c14ChainStore(r *Run) {
 			r.ExpectArg(c, "add:hash.of", 0, "p2")
 		}
 		if c := r.OneCall(fn, "add:storage", "iface(trillian/ctfe/storage.IssuanceChainStorage).Add"); c != nil {
-			r.ExpectArg(c, "add:storage.key", 2, "trillian/ctfe.issuanceChainHash(p2)")
+			got := c14D(r, fn, CallArgs(c)[2])
+			r.Check("add:storage.key", got == "trillian/ctfe.issuanceChainHash(p2)", r.Where(c), fmt.Sprintf("arg 2 of %s = %s (expected trillian/ctfe.issuanceChainHash(p2))", CalleeOf(c), got))
 			r.ExpectArg(c, "add:storage.chain", 3, "p2")
 		}
 		r.ErrorsGate(fn, "add:errors", "iface(trillian/ctfe/storage.IssuanceChainStorage).Add", 1)
@@ -492,7 +571,7 @@ func c14ChainStore(r *Run) {
 			}
 			g := gos[0].(*ssa.Go)
 			k, v, why := c14CacheFill(r, g)
-			r.Check("add:cache-fill.args", k != nil && r.D.D(k) == "trillian/ctfe.issuanceChainHash(p2)" && r.D.D(v) == "p2", r.Where(g), "cache filled with (hash(chain), chain) "+why)
+			r.Check("add:cache-fill.args", k != nil && c14D(r, fn, k) == "trillian/ctfe.issuanceChainHash(p2)" && c14D(r, fn, v) == "p2", r.Where(g), "cache filled with (hash(chain), chain) "+why)
 		}
 		// cache short-cut only when err == nil && entry != nil
 		get := "iface(trillian/ctfe/cache.IssuanceChainCache).Get(*)"
@@ -512,7 +591,7 @@ func c14ChainStore(r *Run) {
 		}
 		for _, ret := range Returns(fn) {
 			if errKind(ret.Results[1]) == "nil" {
-				r.Check("add:returns-hash", r.D.D(ret.Results[0]) == "trillian/ctfe.issuanceChainHash(p2)", r.Where(ret), "returns hash(chain)")
+				r.Check("add:returns-hash", c14D(r, fn, ret.Results[0]) == "trillian/ctfe.issuanceChainHash(p2)", r.Where(ret), "returns hash(chain)")
 			}
 		}
 	}
